@@ -84,6 +84,7 @@ from jax.extend.core import Jaxpr, Var, jaxpr_as_fun
 from jax.interpreters import ad as jax_autodiff
 from jaxtyping import ArrayLike
 
+from genjax import _compat
 from genjax._compat import ensure_jax_tfp_compat
 
 ensure_jax_tfp_compat()
@@ -120,7 +121,7 @@ def _is_float0_tangent(v) -> bool:
     We use ``get_aval`` so this works for both concrete arrays and tracers.
     """
     try:
-        aval = jax._src.core.get_aval(v)
+        aval = _compat.get_aval(v)
     except TypeError:
         return False
     return isinstance(aval, jax._src.core.ShapedArray) and aval.dtype == jax.dtypes.float0
@@ -136,7 +137,7 @@ def _canonicalize_tangent_for_primitive_jvp(primal, tangent):
     if _is_ad_zero(tangent):
         return tangent
     if _is_float0_tangent(tangent):
-        return jax_autodiff.Zero.from_primal_value(primal)
+        return _compat.zero_tangent_from_primal(primal)
     return tangent
 
 
@@ -151,7 +152,7 @@ def _instantiate_zero_tangents(tree):
 
 def _zero_tangent_like(v):
     """Construct a zero tangent with the correct tangent dtype for ``v``."""
-    return jax_autodiff.instantiate_zeros(jax_autodiff.Zero.from_primal_value(v))
+    return jax_autodiff.instantiate_zeros(_compat.zero_tangent_from_primal(v))
 
 
 ###################
@@ -476,7 +477,7 @@ class ADEV(Pytree):
             jax_util.safe_map(pure_env.write, invars, flat_args)
             for eqn in eqns:
                 in_vals = jax_util.safe_map(pure_env.read, eqn.invars)
-                subfuns, params = eqn.primitive.get_bind_params(eqn.params)
+                subfuns, params = _compat.get_bind_params(eqn.primitive, eqn.params)
                 args = subfuns + in_vals
                 outs = eqn.primitive.bind(*args, **params)
                 if not eqn.primitive.multiple_results:
@@ -497,7 +498,7 @@ class ADEV(Pytree):
             for eqn_idx, eqn in enumerate(eqns):
                 with src_util.user_context(eqn.source_info.traceback):
                     in_vals = jax_util.safe_map(dual_env.read, eqn.invars)
-                    subfuns, params = eqn.primitive.get_bind_params(eqn.params)
+                    subfuns, params = _compat.get_bind_params(eqn.primitive, eqn.params)
                     duals = subfuns + in_vals
 
                     primitive, inner_params = PPPrimitive.unwrap(eqn.primitive)
